@@ -550,7 +550,7 @@ func vpC25Generate(t *rapid.T, maxNodes int) *vpC25Case {
 	store.checkpoints, store.spaces = map[crypto.Hash]*common.RoundSpace{}, map[crypto.Hash][]*common.RoundSpace{}
 	active := rapid.IntRange(thr, n).Draw(t, "active_today")
 	notReady := rapid.IntRange(0, 11).Draw(t, "not_ready")
-	if notReady == 0 {
+	if notReady == 10 {
 		active = rapid.IntRange(0, thr-1).Draw(t, "too_few_active")
 		cs.ready = false
 	}
@@ -567,7 +567,7 @@ func vpC25Generate(t *rapid.T, maxNodes int) *vpC25Case {
 			store.spaces[id] = []*common.RoundSpace{{NodeId: id, Batch: day - epoch/OneDay - 1, Round: 5, Duration: uint64(time.Minute)}}
 		}
 	}
-	if notReady == 1 && active > 0 {
+	if notReady == 11 && active > 0 {
 		// one checkpoint lags: the aggregators disagree
 		delete(store.checkpoints, order[0])
 		cs.ready = false
@@ -576,7 +576,7 @@ func vpC25Generate(t *rapid.T, maxNodes int) *vpC25Case {
 	// yesterday's works: clustered around a center so that the clamps and their edges are hit
 	center := rapid.SampledFrom([]uint64{1, 7, 50, 1000, 98765, 1000000, 7_000_000_000, 1 << 40}).Draw(t, "center")
 	zero := rapid.IntRange(0, n-thr).Draw(t, "zero_work_nodes")
-	if rapid.IntRange(0, 14).Draw(t, "too_many_idle") == 0 {
+	if rapid.IntRange(0, 14).Draw(t, "too_many_idle") == 14 {
 		zero = n - thr + 1 + rapid.IntRange(0, thr-1).Draw(t, "extra_idle")
 		cs.ready = false
 	}
@@ -653,7 +653,7 @@ func TestVP_C25_distribution(t *testing.T) {
 	c.Require("built", "not-built", "nontrivial", "clamped-high", "clamped-low", "zero-work-node", "multi-batch", "single-batch", "equal-works-pair", "removed-node-present", "nodes>=30", "validate-only-same-batch")
 	c.Assume(fmt.Sprintf("batches up to %d (single-batch size >= %d units): the smallest node share is then at least 1 unit for 50 nodes; smaller amounts are known finding C25-K2", vpC25Reference().distMax, vpC25DistMinUnits))
 	c.Set("excluded_known_batches_from", vpC25Reference().distMax+1)
-	kit.SetChecks(kit.N(1200, 200000))
+	kit.SetChecks(kit.N(2000, 200000))
 	maxNodes := 50
 	custodian := vpC25Addresses()[128]
 	ref := vpC25Reference()
